@@ -30,11 +30,23 @@ pub struct RefOut {
     /// the neutral case is exact in f64 as well (CCI: every bar of the window carries bit-identical
     /// high, low and close, so the typical prices are equal however they are rounded)
     pub exact_neutral: bool,
+    /// the stronger of the two reasons: the window's bars are bit-identical (stays true in any price unit)
+    pub identical_window: bool,
     /// largest |price field the indicator is documented to read| since reset
     pub m: f64,
     /// natural scale of the output for ratio oscillators (100, 1, 1/0.015, cumulative volume)
     pub scale: f64,
     pub t: usize,
+}
+
+/// a + b + c is exact in f64 whatever the order of the two additions
+pub fn exact_sum3(a: f64, b: f64, c: f64) -> bool {
+    let ex = |x: f64, y: f64| {
+        let s = x + y;
+        s.is_finite() && (dd(x) + dd(y)).lo == 0.0 && (dd(x) + dd(y)).hi == s
+    };
+    let ex3 = |x: f64, y: f64, z: f64| ex(x, y) && ex(x + y, z);
+    ex3(a, b, c) && ex3(a, c, b) && ex3(b, c, a)
 }
 
 // ---------------------------------------------------------------------------------------------
@@ -304,7 +316,7 @@ impl RefModel {
                 (s, Some(*b))
             }
         };
-        let mut out = RefOut { n: 1, v: [Dd::ZERO; 3], c: [1.0; 3], degenerate: false, near_tie: false, exact_neutral: false, m: self.m, scale: 1.0, t };
+        let mut out = RefOut { n: 1, v: [Dd::ZERO; 3], c: [1.0; 3], degenerate: false, near_tie: false, exact_neutral: false, identical_window: false, m: self.m, scale: 1.0, t };
         // keep last n+1 of the scalar series
         self.w.push_back(s);
         while self.w.len() > n.saturating_add(1) {
@@ -517,7 +529,10 @@ impl RefModel {
                         all
                     };
                     let cskip = self.w.len().saturating_sub(k);
-                    out.exact_neutral = same(&mut self.wh.iter()) && same(&mut self.wl.iter()) && same(&mut self.w.iter().skip(cskip));
+                    out.identical_window = same(&mut self.wh.iter()) && same(&mut self.wl.iter()) && same(&mut self.w.iter().skip(cskip));
+                    out.exact_neutral = out.identical_window
+                        // ... or different bars whose sums high+low+close are all exact in f64 and equal
+                        || (flat && self.wh.iter().zip(self.wl.iter()).zip(self.w.iter().skip(cskip)).all(|((h, l), c)| exact_sum3(*h, *l, *c)));
                 } else {
                     out.v[0] = (tp - mean) / (dd(15.0) / dd(1000.0) * mad);
                     out.c[0] = self.m / mad.to_f64();
@@ -545,7 +560,14 @@ impl RefModel {
                         (Some(b), Some(q)) => [b.h, b.l, b.c] == q,
                         _ => false,
                     };
-                    let near = !same_prices && gap <= 4.0 * EPS * tp.abs().to_f64().max(ptp.abs().to_f64());
+                    // ... or both bars' sums high+low+close are exact in f64 in every order of addition (prices on
+                    // a dyadic grid): any evaluation of (high+low+close)/3 then divides the same exact number, so an
+                    // exact tie of the typical prices is a tie in f64 too
+                    let exact_tie = sign == 0 && match (bar, self.prev_hlc) {
+                        (Some(b), Some(q)) => exact_sum3(b.h, b.l, b.c) && exact_sum3(q[0], q[1], q[2]),
+                        _ => false,
+                    };
+                    let near = !same_prices && !exact_tie && gap <= 4.0 * EPS * tp.abs().to_f64().max(ptp.abs().to_f64());
                     self.flows.push_back((sign, raw));
                     self.ties.push_back(near);
                     while self.flows.len() > n {
